@@ -14,6 +14,7 @@ func init() {
 	vRegister("HarnessC04_mergekeys", HarnessC04_mergekeys)
 	vRegister("HarnessC04_compare", HarnessC04_compare)
 	vRegister("HarnessC04_structure", HarnessC04_structure)
+	vRegister("HarnessC04_streams", HarnessC04_streams)
 }
 
 // The three decoders are outside (third-party parsers). What is decided here
@@ -256,4 +257,44 @@ func HarnessC04_structure() {
 	// and a layer written in one format matches/overrides one written in another
 	vAssert("C04.structure.match", match(a, b))
 	vCover("structure.checked")
+}
+
+// c04StreamDocs: concrete documents (TOML has no null and no non-map roots).
+var c04StreamDocs = []any{
+	map[string]any{},
+	map[string]any{"a": 1},
+	map[string]any{"a": []any{1, map[string]any{"b": "x"}}, "z": true},
+	map[string]any{"m": map[string]any{}, "l": []any{}},
+	map[string]any{"f": 1.5, "neg": -3, "s": ""},
+	map[string]any{"t": []any{map[string]any{"a": 1}, map[string]any{"a": 2}}},
+}
+
+// HarnessC04_streams: a stream of 1-3 documents (empty maps included, at any
+// position) written by any format's encoder and read back by the same
+// format's decoder + normalize is the same stream, for every format; hence
+// the same logical stream is delivered identically whichever format it is
+// written in. The stream codecs are the engine's native boundary: the real
+// functions run on this concrete data, in the engine and in the replay.
+func HarnessC04_streams() {
+	name := []string{"json", "jsonl", "json-pretty", "yaml", "toml"}[ndChoice(5)]
+	n := 1 + ndChoice(3)
+	docs := []any{}
+	for i := 0; i < n; i++ {
+		docs = append(docs, c04StreamDocs[ndChoice(len(c04StreamDocs))])
+	}
+	vObserve("docs", docs)
+	f, err := GetFormat(name)
+	vAssert("C04.streams.format", err == nil)
+	text, err := f.MarshalStream(docs)
+	vAssert("C04.streams.encode", err == nil)
+	back, err := f.UnmarshalStream(text)
+	vAssert("C04.streams.decode", err == nil)
+	vAssert("C04.streams.count", len(back) == len(docs))
+	for i := range back {
+		nd, err := normalize(back[i])
+		vAssert("C04.streams.normalize", err == nil)
+		vObserve("back", nd)
+		vAssert("C04.streams.same", vEq(nd, docs[i]))
+	}
+	vCover("streams.checked")
 }
